@@ -3,6 +3,7 @@ import FlexVerif.Validator.Validate
 import FlexVerif.Driver.Trace
 import FlexVerif.Driver.TblCmd
 import FlexVerif.Validator.Useful
+import FlexVerif.M4.Quote
 namespace FlexVerif
 
 def showLabel : Option (List Int) → String
@@ -59,6 +60,16 @@ def mainImpl (args : List String) : IO UInt32 := do
     let ok := certOK S c.csize classes cert
     let us := (usefulRules cert).mergeSort (· ≤ ·)
     IO.println s!"useful certok={if ok then 1 else 0} states={cert.length} rules={" ".intercalate (us.map toString)}"
+    return 0
+  | "m4esc" :: scheme :: hex :: _ =>
+    let code := parseHex hex
+    let e := if scheme == "B" then M4.escB code else M4.escA code
+    IO.println (hexOf e)
+    IO.println (hexOf (M4.unq 1 (e ++ [93, 93])))
+    return 0
+  | "m4esc" :: _ :: [] =>
+    IO.println ""
+    IO.println ""
     return 0
   | "tbl-dump" :: path :: _ => cmdTblDump path
   | "tbl-load" :: path :: key :: _ => cmdTblLoad path key
